@@ -294,6 +294,7 @@ const (
 	KRich                        // own type offering ReadByte/UnreadByte/Peek/Discard/Buffered/WriteTo over the scripted reader
 	KLimited                     // *io.LimitedReader over the scripted reader (limit far beyond the stream)
 	KOddLen                      // own type over the scripted reader with methods Len() and Size() that mean something else (bytes written so far: 0)
+	KCloser                      // own type with a Close method (a connection double): after Close every Read fails
 	KBytesBuffer                 // *bytes.Buffer holding the stream (contiguous by construction)
 	KBytesReader                 // *bytes.Reader
 	KStringsReader               // *strings.Reader
@@ -301,13 +302,13 @@ const (
 )
 
 func (k Kind) String() string {
-	return [...]string{"raw", "bufio16", "bufio4096", "bufio-prefetched", "rich", "limited", "odd-len", "bytes.Buffer", "bytes.Reader", "strings.Reader"}[k]
+	return [...]string{"raw", "bufio16", "bufio4096", "bufio-prefetched", "rich", "limited", "odd-len", "closer", "bytes.Buffer", "bytes.Reader", "strings.Reader"}[k]
 }
 
 // Scripted reports whether the kind draws from the scripted reader (so
 // that fragmentation and injected errors apply); the others hold the whole
 // stream and can only end with io.EOF.
-func (k Kind) Scripted() bool { return k <= KOddLen }
+func (k Kind) Scripted() bool { return k <= KCloser }
 
 // AllKinds lists every kind; ScriptedKinds those over the scripted reader.
 func AllKinds() []Kind {
@@ -335,6 +336,8 @@ func Wrap(k Kind, src *Reader) io.Reader {
 		return io.LimitReader(src, 1<<40)
 	case KOddLen:
 		return &OddLen{src}
+	case KCloser:
+		return &Closer{src: src}
 	case KBytesBuffer:
 		return bytes.NewBuffer(append([]byte(nil), src.Data...))
 	case KBytesReader:
@@ -354,6 +357,25 @@ func (r *OddLen) Read(p []byte) (int, error) { return r.src.Read(p) }
 func (r *OddLen) Len() int                   { return 0 }
 func (r *OddLen) Size() int64                { return 0 }
 func (r *OddLen) Cap() int                   { return 0 }
+
+// Closer is a reader that can be closed, as every connection can. Closing
+// it is the caller's business: a decoder that closes it (on a frame it does
+// not like, say) takes the rest of the stream away from the caller.
+type Closer struct {
+	src    *Reader
+	Closed bool
+}
+
+// ErrClosed is what a Closer answers after Close.
+var ErrClosed = errors.New("env: read on closed connection")
+
+func (r *Closer) Read(p []byte) (int, error) {
+	if r.Closed {
+		return 0, ErrClosed
+	}
+	return r.src.Read(p)
+}
+func (r *Closer) Close() error { r.Closed = true; return nil }
 
 // Rich is a reader of its own type that honestly implements the optional
 // interfaces a decoder may probe for.
@@ -481,6 +503,10 @@ func (r *RichWriter) ReadFrom(src io.Reader) (int64, error) {
 	}
 }
 
+var usedBufio = map[int]*bufio.Writer{}
+
+var stale = bytes.Repeat([]byte{0xa5}, 4096)
+
 // WrapWriter returns the writer to hand to the code under test and a
 // function that flushes it and returns everything that was written.
 func WrapWriter(k WKind, w *Writer) (io.Writer, func() []byte) {
@@ -490,7 +516,18 @@ func WrapWriter(k WKind, w *Writer) (io.Writer, func() []byte) {
 		if k == WBufio4096 {
 			size = 4096
 		}
-		bw := bufio.NewWriterSize(w, size)
+		// one bufio.Writer per size serves every case of a process, as one
+		// serves every packet of a connection: its buffer memory is not
+		// fresh, it holds what went through it before (0xa5 here)
+		bw := usedBufio[size]
+		if bw == nil {
+			bw = bufio.NewWriterSize(io.Discard, size)
+			usedBufio[size] = bw
+		}
+		bw.Reset(io.Discard)
+		bw.Write(stale[:size])
+		bw.Flush()
+		bw.Reset(w)
 		return bw, func() []byte { bw.Flush(); return w.Buf }
 	case WRich:
 		return &RichWriter{w}, func() []byte { return w.Buf }
